@@ -51,24 +51,31 @@ func NewManager(maxSize int64) *Manager {
 }
 
 func (m *Manager) Release(name string) {
+	verifYield("Release.mgrLock")
 	m.mu.Lock()
 	defer m.mu.Unlock()
+	verifYield("Release.delete")
 	delete(m.sharedCaches, name)
 	log.Debug().Str("name", name).Int("numCaches", len(m.sharedCaches)).Msg("Released cache")
+	verifYield("Release.mgrUnlock")
 }
 
 // Checks if the total size of the cache is over the limit and if so, it will
 // scrap the least recently used cache.
 func (m *Manager) checkAndPrune() {
 	// Nothing to do if there is no limit
+	verifYield("Prune.enter")
 	if m.maxSize == -1 {
 		return
 	}
 	// ---------------------------
+	verifYield("Prune.mgrLock")
 	m.mu.Lock()
 	defer m.mu.Unlock()
+	defer verifYield("Prune.mgrUnlock")
 	// ---------------------------
 	// Nothing can be stored in the cache if the limit is 0
+	verifYield("Prune.body")
 	if m.maxSize == 0 {
 		clear(m.sharedCaches)
 		return
@@ -130,9 +137,12 @@ func (t *Transaction) With(name string, readOnly bool, createFn func() (Cachable
 	 * caches. */
 	// ---------------------------
 	// We start with manager lock so others don't try to create the same cache
+	verifYield("With.mgrLock")
 	t.manager.mu.Lock()
+	verifYield("With.lookup")
 	if existingCache, ok := t.manager.sharedCaches[name]; ok {
 		existingCache.lastAccessed = time.Now()
+		verifYield("With.exMgrUnlock")
 		t.manager.mu.Unlock()
 		/* Bbolt allows multiple read transactions to be open at the same time
 		 * but only a single write. For example, if there is an insert operation,
@@ -152,16 +162,21 @@ func (t *Transaction) With(name string, readOnly bool, createFn func() (Cachable
 			// Do we already have a write lock on this cache? If we do we can
 			// let other go routines on the same transaction to concurrently
 			// read from it whilst one go routine is writing.
+			verifYield("With.rTxLock")
 			t.mu.Lock()
+			verifYield("With.rCheckWritten")
 			_, ok := t.writtenCaches[name]
+			verifYield("With.rTxUnlock")
 			t.mu.Unlock()
 			if !ok {
 				/* We are using TryRLock here because we can survive if we don't get
 				* the lock with a fresh cold cache. The idea is, if there is an
 				* available cache then use it, otherwise use a cold cache to keep
 				* running. */
+				verifYield("With.rTryRLock")
 				if existingCache.mu.TryRLock() {
 					defer existingCache.mu.RUnlock()
+					defer verifYield("With.dRUnlock")
 				} else {
 					// We couldn't get the lock, so we'll use a clean cold cache to
 					// not block any ready only requests such as search and just
@@ -169,6 +184,7 @@ func (t *Transaction) With(name string, readOnly bool, createFn func() (Cachable
 					// one else will benefit from this cache but it's better than
 					// waiting.
 					log.Debug().Str("name", name).Msg("Creating read only cold cache")
+					verifYield("With.rColdCreate")
 					freshCachable, err := createFn()
 					if err != nil {
 						t.failed.Store(true)
@@ -188,22 +204,28 @@ func (t *Transaction) With(name string, readOnly bool, createFn func() (Cachable
 			 * like insert, update or delete, then we'll have to wait anyway because
 			 * of bbolt (recall bbolt only allows one read-write transaction at a
 			 * time) which is absolutely fine for a search heavy workload. */
+			verifYield("With.xTxLock")
 			t.mu.Lock()
 			/* Have we locked this cache before? Within a transaction we hold
 			 * onto writes until we know the transaction is committed. This is
 			 * to ensure other readers or writers do not see partial results.
 			 * Within a transaction a writer can write to multiple caches, e.g.
 			 * multiple indices. */
+			verifYield("With.xCheckWritten")
 			if _, ok := t.writtenCaches[name]; !ok {
 				/****************************
 				 * Please do not forget to unlock after the transaction is
 				 * complete.
 				 ***************************/
+				verifYield("With.xObjLock")
 				existingCache.mu.Lock()
+				verifYield("With.xRegister")
 				t.writtenCaches[name] = existingCache
 			}
+			verifYield("With.xTxUnlock")
 			t.mu.Unlock()
 		}
+		verifYield("With.chkScrapped")
 		if cacheToUse.scrapped {
 			log.Debug().Str("name", name).Bool("readOnly", readOnly).Msg("Cache is scrapped, using temporary new cache")
 			/* Cold temporary start, what has happened is although the cache was
@@ -212,6 +234,7 @@ func (t *Transaction) With(name string, readOnly bool, createFn func() (Cachable
 			 * opt to create a cold cache instead of waiting for another shared
 			 * cache. For example a search comes in while we are inserting
 			 * points. */
+			verifYield("With.sCreate")
 			freshCachable, err := createFn()
 			if err != nil {
 				t.failed.Store(true)
@@ -228,22 +251,29 @@ func (t *Transaction) With(name string, readOnly bool, createFn func() (Cachable
 			log.Debug().Str("name", name).Bool("readOnly", readOnly).Msg("Reusing cache")
 			defer t.manager.checkAndPrune()
 		}
+		verifYield("With.callF")
 		if err := f(cacheToUse.item); err != nil {
 			/* Something went wrong, we'll scrap the cache and delete it from the
 			 * manager. */
+			verifYield("With.fScrap")
 			t.failed.Store(true)
 			cacheToUse.scrapped = true
+			verifYield("With.fMgrLock")
 			t.manager.mu.Lock()
+			verifYield("With.fDelete")
 			delete(t.manager.sharedCaches, name)
+			verifYield("With.fMgrUnlock")
 			t.manager.mu.Unlock()
 			return fmt.Errorf("error while executing cache operation: %w", err)
 		}
 		return nil
 	}
 	log.Debug().Str("name", name).Bool("readOnly", readOnly).Msg("Creating new cache")
+	verifYield("With.nCreate")
 	freshCachable, err := createFn()
 	if err != nil {
 		t.failed.Store(true)
+		verifYield("With.nFailMgrUnlock")
 		t.manager.mu.Unlock()
 		return fmt.Errorf("error while creating fresh cache: %w", err)
 	}
@@ -251,30 +281,43 @@ func (t *Transaction) With(name string, readOnly bool, createFn func() (Cachable
 		item:         freshCachable,
 		lastAccessed: time.Now(),
 	}
+	verifYield("With.nStore")
 	if t.manager.maxSize != 0 {
 		t.manager.sharedCaches[name] = s
 		defer t.manager.checkAndPrune()
 	}
 	// We know the following locks will succeed because it is a new cache.
 	if readOnly {
+		verifYield("With.nRLock")
 		s.mu.RLock()
 		defer s.mu.RUnlock()
+		defer verifYield("With.dRUnlock")
 	} else {
 		// The following shared cache lock is released when the transaction is done.
+		verifYield("With.nObjLock")
 		s.mu.Lock()
+		verifYield("With.nTxLock")
 		t.mu.Lock()
+		verifYield("With.nRegister")
 		t.writtenCaches[name] = s
+		verifYield("With.nTxUnlock")
 		t.mu.Unlock()
 		// defer s.mu.Unlock()
 	}
 	// By unlocking after we have the cache lock, we guarantee that the cache
 	// will not be scrapped by another goroutine.
+	verifYield("With.nMgrUnlock")
 	t.manager.mu.Unlock()
+	verifYield("With.callF")
 	if err := f(s.item); err != nil {
+		verifYield("With.fScrap")
 		t.failed.Store(true)
 		s.scrapped = true
+		verifYield("With.fMgrLock")
 		t.manager.mu.Lock()
+		verifYield("With.fDelete")
 		delete(t.manager.sharedCaches, name)
+		verifYield("With.fMgrUnlock")
 		t.manager.mu.Unlock()
 		return fmt.Errorf("error while executing on new cache operation: %w", err)
 	}
@@ -283,15 +326,22 @@ func (t *Transaction) With(name string, readOnly bool, createFn func() (Cachable
 
 // Releases all the locks on the caches. Must be called after the transaction.
 func (t *Transaction) Commit(fail bool) {
+	verifYield("Commit.txLock")
 	t.mu.Lock()
 	defer t.mu.Unlock()
+	defer verifYield("Commit.txUnlock")
+	verifYield("Commit.checkEmpty")
 	if len(t.writtenCaches) == 0 {
 		return
 	}
+	verifYield("Commit.mgrLock")
 	t.manager.mu.Lock()
 	defer t.manager.mu.Unlock()
+	defer verifYield("Commit.mgrUnlock")
+	verifYield("Commit.loop")
 	failed := t.failed.Load() || fail
 	for name, s := range t.writtenCaches {
+		verifYield2("Commit.entry", name)
 		if failed {
 			s.scrapped = true
 			delete(t.manager.sharedCaches, name)
